@@ -64,8 +64,22 @@ def make_pool(seed, n, scratch):
         _write_layout(lay, root)
         with open(os.path.join(root, lay.main_key), encoding="utf-8") as f:
             text = f.read()
-        jobs.append({"k": "compile", "text": text, "path": os.path.join(root, lay.main_key),
-                     "lookup": [os.path.join(root, k) for k in lay.lookup_keys], "cls": "layout"})
+        lookup = [os.path.join(root, k) for k in lay.lookup_keys]
+        jobs.append({"k": "compile", "text": text, "path": os.path.join(root, lay.main_key), "lookup": lookup, "cls": "layout"})
+        # one of the imported files compiled on its own (histories like to do that first, on the same compiler object)
+        libs = [k for k in lay.files if k != lay.main_key]
+        if libs:
+            lk = rnd.choice(libs)
+            with open(os.path.join(root, lk), encoding="utf-8") as f:
+                ltext = f.read()
+            jobs.append({"k": "compile", "text": ltext, "path": os.path.join(root, lk), "lookup": lookup, "cls": "layout-lib"})
+            jobs[-2]["after"] = ltext
+    # deeply nested programs: whether they compile depends on the interpreter's recursion limit, which must not depend on history
+    for depth in rnd.sample([40, 90, 150, 220], 2):
+        body = "a();"
+        for d in range(depth):
+            body = f"if ($A == {d}) {{ {body} }}"
+        jobs.append({"k": "compile", "text": "def 0 { " + body + " end; }", "cls": "deep-nesting"})
     # decompile jobs
     kinds = ["compiled", "compiled", "relaid", "cfg", "special", "flat"]
     for kind in kinds:
